@@ -709,3 +709,166 @@ def xml_attribute_order(ctx: Ctx, rule):
 
 RULES.setdefault("C11", []).append(Rule("C11.R15", "the value read from an XML element does not depend on the order of its attributes", 1, xml_attribute_order, "F-DEF",
                                         "every spelling of a typed, language-tagged literal loads with all of its information"))
+
+
+# ------------------------------------------------------------------------------------------ round-6 micro rules on the XML codec
+def xml_micro(ctx: Ctx, rule):
+    """(a) _derive_record_label turns ONE prov:type value into the element name: every removal of a type pair from the attribute
+    list is followed, in the same statement list, by leaving the loop (break / return) - with `continue`, a second subtype is
+    removed too but only the last one becomes the name, and the other is written nowhere.
+    (b) the reader's stand-in for an element without text is a *string* ("" ), not None."""
+    res = RuleResult()
+    q0 = XM + ".ProvXMLSerializer._derive_record_label"
+    n_rm = 0
+    for q in ctx.helper_closure(q0):
+        if not q.startswith(XM + "."):
+            continue
+        f = ctx.fn(q)
+        for loop in walk_function(f.node):
+            if not isinstance(loop, (ast.For, ast.While)):
+                continue
+            for lst in [x for y in ast.walk(loop) for x in (getattr(y, "body", None), getattr(y, "orelse", None)) if isinstance(x, list)]:
+                for i, st in enumerate(lst):
+                    if isinstance(st, ast.Expr) and isinstance(st.value, ast.Call) and call_name(st.value) in ("remove", "pop") or (isinstance(st, ast.Delete)):
+                        n_rm += 1
+                        leaves = any(isinstance(t, (ast.Break, ast.Return)) for t in lst[i:])
+                        res.ob("%s: the removal `%s` is followed by leaving the loop: %s" % (short(q), norm(st)[:40], leaves))
+                        if not leaves:
+                            res.fail(rule.id, "relabel-consumes-several-types", ctx.loc(q, st), "%s removes a prov:type pair and keeps looping: a second subtype is removed as well, but only one becomes the element name" % short(q),
+                                     "an agent typed prov:Person and prov:SoftwareAgent is written as one <prov:softwareAgent> element: the other type is lost on reload")
+    if not n_rm:
+        raise AnalysisError("_derive_record_label: the removal of the consumed prov:type pair was not found")
+    rq = XM + "._extract_attributes"
+    for q in ctx.helper_closure(rq):
+        if not q.startswith(XM + "."):
+            continue
+        f = ctx.fn(q)
+        for n in walk_function(f.node):
+            if isinstance(n, ast.IfExp) and isinstance(n.body, ast.Attribute) and n.body.attr in ("text", "tail") and "None" in norm(n.test):
+                okv = isinstance(n.orelse, ast.Constant) and isinstance(n.orelse.value, str)
+                res.ob("%s: an absent %s is replaced by the string %s: %s" % (short(q), n.body.attr, norm(n.orelse), okv))
+                if not okv:
+                    res.fail(rule.id, "absent-text-not-a-string", ctx.loc(q, n), "%s replaces an absent element text by %s, not by a string" % (short(q), norm(n.orelse)),
+                             "an attribute whose value is the empty string reloads as the string 'None' (or is dropped)")
+    return res
+
+
+RULES.setdefault("C02", []).append(Rule("C02.R16", "one prov:type value is consumed per relabel; an absent element text is the empty string", 1, xml_micro, "F-PATH",
+                                        "records with several subtype types, and empty string values, survive the XML round trip"))
+RULES.setdefault("C10", []).append(Rule("C10.R18", "one prov:type value is consumed per relabel (shared with C02.R16)", 1, xml_micro, "F-PATH", "every asserted type appears in the emitted text"))
+RULES.setdefault("C11", []).append(Rule("C11.R16", "one prov:type value is consumed per relabel; absent text is '' (shared with C02.R16)", 1, xml_micro, "F-PATH", "writing a loaded document never drops a type or an empty value"))
+
+
+# ------------------------------------------------------------------------------------------ C11.R17: JSON membership expansion and Literal(langtag, datatype)
+def c11_r17(ctx: Ctx, rule):
+    """(a) PROV-JSON lets one hadMember list several entities; the reader makes one membership per entity: the first from values[0],
+    the others from values[1:] - the extra-members slice starts at 1.
+    (b) Literal.__init__: a language-tagged literal is a prov:InternationalizedString: under `langtag is not None`, the branch that
+    overrides a foreign datatype is guarded by `datatype != <InternationalizedString>`."""
+    res = RuleResult()
+    q0 = JS + ".decode_json_container"
+    found = False
+    for q in ctx.helper_closure(q0):
+        if not q.startswith(JS + "."):
+            continue
+        f = ctx.fn(q)
+        for a in walk_function(f.node):
+            if isinstance(a, ast.Assign) and len(a.targets) == 1 and isinstance(a.targets[0], ast.Name) and "member" in a.targets[0].id and isinstance(a.value, ast.Subscript) and isinstance(a.value.slice, ast.Slice):
+                found = True
+                sl = a.value.slice
+                lo = sl.lower.value if isinstance(sl.lower, ast.Constant) else "?"
+                okm = lo == 1 and sl.upper is None and sl.step is None
+                res.ob("%s: the extra members are %s: everything after the first: %s" % (short(q), norm(a.value), okm))
+                if not okm:
+                    res.fail(rule.id, "membership-extra-members::%s" % norm(a.value), ctx.loc(q, a), "the members beyond the first are taken as %s" % norm(a.value),
+                             "hadMember with 'prov:entity': [e1, e2, e3] loads without e2")
+    if not found:
+        raise AnalysisError("the multiple-entity membership expansion of the JSON reader was not found")
+    lq = ctx.p.lookup_method(M + ".Literal", "__init__")
+    lf = ctx.fn(lq)
+    istr = ctx.prov_ns()
+    n_cmp = 0
+    for n in walk_function(lf.node):
+        if isinstance(n, ast.If):
+            for c in ast.walk(n.test):
+                if isinstance(c, ast.Compare) and len(c.ops) == 1 and isinstance(c.ops[0], (ast.Eq, ast.NotEq)):
+                    sides = [c.left, c.comparators[0]]
+                    try:
+                        vals = [ctx.eval_in(lq, x) for x in sides]
+                    except AnalysisError:
+                        continue
+                    if any(getattr(v, "local", None) == "InternationalizedString" for v in vals):
+                        assigns = any(isinstance(a, ast.Assign) and any(isinstance(t, ast.Name) and "datatype" in t.id for t in a.targets) for b in n.body for a in ast.walk(b))
+                        if assigns:
+                            n_cmp += 1
+                            okc = isinstance(c.ops[0], ast.NotEq)
+                            res.ob("Literal.__init__: the datatype of a language-tagged literal is overridden when `%s`: guard is `!=`: %s" % (norm(c)[:60], okc))
+                            if not okc:
+                                res.fail(rule.id, "langtag-datatype-override-inverted", ctx.loc(lq, c), "Literal.__init__ overrides the datatype when it already IS prov:InternationalizedString and keeps a foreign one",
+                                         "{'$': 'x', 'type': 'xsd:string', 'lang': 'fr'} loads with datatype xsd:string; the JSON writer emits only the language: write-load gives another document")
+    if not n_cmp:
+        raise AnalysisError("Literal.__init__: the datatype override for language-tagged literals was not found")
+    return res
+
+
+RULES.setdefault("C11", []).append(Rule("C11.R17", "multi-entity memberships expand from values[1:]; a language-tagged literal's foreign datatype is overridden (guard `!=`)", 2, c11_r17, "F-PATH",
+                                        "foreign JSON forms load completely and re-serialise to the same document"))
+
+
+# ------------------------------------------------------------------------------------------ C07.R14: RDF container scoping and wildcard removal
+def c07_r14(ctx: Ctx, rule):
+    """(a) decode_container builds the records of ONE container: every record-creating call is made on its `bundle` parameter - the
+    document (self.document) is only used to register namespaces.  (b) rdflib's Graph.remove((s, p, o)) treats None as a wildcard:
+    a removal whose subject is a variable is guarded by `<that variable> is not None`."""
+    res = RuleResult()
+    dq = RD + ".ProvRDFSerializer.decode_container"
+    if dq not in ctx.p.functions:
+        raise AnalysisError("anchor vanished: function %s" % dq)
+    n_doc = 0
+    for q in ctx.helper_closure(dq, 1):
+        f = ctx.fn(q)
+        if not q.startswith(RD + ".ProvRDFSerializer.decode_container"):
+            continue
+        for c in calls_in(f.node):
+            recv = None
+            if isinstance(c.func, ast.Attribute):
+                recv = c.func.value
+            elif isinstance(c.func, ast.Call) and call_name(c.func) == "getattr" and c.func.args:
+                recv = c.func.args[0]
+            if recv is not None and norm(recv) == "self.document":
+                n_doc += 1
+                name = call_name(c) if isinstance(c.func, ast.Attribute) else "getattr(..)"
+                okc = name in ("add_namespace", "set_default_namespace", "get_registered_namespaces", "valid_qualified_name", "get_default_namespace")
+                res.ob("decode_container uses self.document for %s: namespace bookkeeping only: %s" % (norm(c)[:50], okc))
+                if not okc:
+                    res.fail(rule.id, "record-created-on-document::%s" % norm(c)[:40], ctx.loc(q, c), "decode_container creates a record on self.document (%s) instead of the container it is decoding" % norm(c)[:50],
+                             "an alternateOf inside a bundle is read back into the document: 'in the same bundles' fails")
+    res.ob("uses of self.document inside decode_container: %d" % n_doc, nontrivial=False)
+    eq_ = RD + ".ProvRDFSerializer.encode_container"
+    ef = ctx.fn(eq_)
+    g = get_cfg(ctx, eq_)
+    n_rm = 0
+    for c in calls_in(ef.node):
+        if call_name(c) == "remove" and c.args and isinstance(c.args[0], ast.Tuple) and c.args[0].elts and isinstance(c.args[0].elts[0], ast.Name):
+            n_rm += 1
+            v = c.args[0].elts[0].id
+            nd = node_of(g, c)
+            dom = g.dominators(labels_excluded=("exc",))
+            okg = False
+            for i in dom.get(nd.id, set()):
+                t = g.nodes[i]
+                if t.kind == "test" and norm(t.stmt.test) in ("%s is not None" % v, v):
+                    others = [m for m, lab in t.succ if lab == "false"]
+                    if not any(m is nd or g.exists_path(m, nd, avoid=lambda x, t=t: x is t) for m in others):
+                        okg = True
+            res.ob("encode_container: %s is reached only when %s is not None (None would be a wildcard): %s" % (norm(c)[:50], v, okg))
+            if not okg:
+                res.fail(rule.id, "wildcard-removal::%s" % v, ctx.loc(eq_, c), "container.remove((%s, ...)) can run with %s = None: rdflib removes every matching triple" % (v, v),
+                         "an identified derivation followed by an un-identified wasRevisionOf: the earlier derivation loses its rdf:type triple and is not read back")
+    if not n_rm:
+        res.ob("no triple removal in encode_container", nontrivial=False)
+    return res
+
+
+RULES.setdefault("C07", []).append(Rule("C07.R14", "decode_container creates records on its container only; triple removals never run with a None (wildcard) subject", 1, c07_r14, "F-PATH",
+                                        "relations come back in the bundle they were written in; writing a revision never deletes other relations' triples"))
